@@ -53,3 +53,17 @@ def replay_json_scalar(rec):
     got = yaml_load(s)
     bad = type(got) is not type(want) or got != want
     return {"reproduced": bad, "signature": "json-scalar-read-differently-in-yaml-mode" if bad else "", "text": s, "json": repr(want), "yaml_mode": repr(got)}
+
+
+def replay_python_number(rec):
+    """Lemma witness: a text that Python prints for a number and that the loader does not read back as that number."""
+    import ast
+    from jsonargparse._loaders_dumpers import yaml_load
+    s = _s(rec)
+    try:
+        want = ast.literal_eval(s)
+    except Exception:
+        return {"reproduced": False, "note": "witness is not a Python number literal", "text": s}
+    got = yaml_load(s)
+    bad = type(got) is not type(want) or got != want
+    return {"reproduced": bad, "signature": "python-number-text-not-read-as-that-number" if bad else "", "text": s, "python": repr(want), "loader": repr(got)}
